@@ -29,6 +29,11 @@ func (k Keeper) Attest(ctx sdk.Context, oracleAddr sdk.AccAddress, claim types.E
 
 	gasMeter := ctx.GasMeter()
 	ctx = ctx.WithGasMeter(storetypes.NewInfiniteGasMeter())
+	// An oracle votes for one claim per event nonce: the nonce cursor normally guarantees it, but the cursor starts
+	// over when an oracle unbonds and bonds again, so the votes recorded for this nonce are checked as well.
+	if k.hasVotedOtherClaim(ctx, oracleAddr, claim) {
+		return nil, types.ErrInvalid.Wrapf("oracle already voted for another claim with event nonce %d", claim.GetEventNonce())
+	}
 	// Tries to get an attestation with the same eventNonce and claim as the claim that was submitted.
 	att := k.GetAttestation(ctx, claim.GetEventNonce(), claim.ClaimHash())
 
@@ -41,8 +46,18 @@ func (k Keeper) Attest(ctx sdk.Context, oracleAddr sdk.AccAddress, claim types.E
 		}
 	}
 
-	// Add the oracle's vote to this attestation
-	att.Votes = append(att.Votes, oracleAddr.String())
+	// Add the oracle's vote to this attestation, unless it is already there (an oracle that unbonded and bonded
+	// again starts over from the last observed nonce and may meet an attestation it voted for before)
+	voted := false
+	for _, vote := range att.Votes {
+		if vote == oracleAddr.String() {
+			voted = true
+			break
+		}
+	}
+	if !voted {
+		att.Votes = append(att.Votes, oracleAddr.String())
+	}
 	k.SetAttestation(ctx, claim.GetEventNonce(), claim.ClaimHash(), att)
 
 	if !att.Observed && claim.GetEventNonce() == k.GetLastObservedEventNonce(ctx)+1 {
@@ -54,6 +69,27 @@ func (k Keeper) Attest(ctx sdk.Context, oracleAddr sdk.AccAddress, claim types.E
 	k.SetLastEventBlockHeightByOracle(ctx, oracleAddr, claim.GetBlockHeight())
 
 	return att, nil
+}
+
+// hasVotedOtherClaim reports whether oracleAddr's vote is recorded for a different claim with the same event nonce
+func (k Keeper) hasVotedOtherClaim(ctx sdk.Context, oracleAddr sdk.AccAddress, claim types.ExternalClaim) bool {
+	store := ctx.KVStore(k.storeKey)
+	iter := storetypes.KVStorePrefixIterator(store, append(types.OracleAttestationKey, sdk.Uint64ToBigEndian(claim.GetEventNonce())...))
+	defer iter.Close()
+	ownKey := types.GetAttestationKey(claim.GetEventNonce(), claim.ClaimHash())
+	for ; iter.Valid(); iter.Next() {
+		if string(iter.Key()) == string(ownKey) {
+			continue
+		}
+		att := new(types.Attestation)
+		k.cdc.MustUnmarshal(iter.Value(), att)
+		for _, vote := range att.Votes {
+			if vote == oracleAddr.String() {
+				return true
+			}
+		}
+	}
+	return false
 }
 
 // TryAttestation checks if an attestation has enough votes to be applied to the consensus state
